@@ -10,7 +10,9 @@ import (
 
 // Op is one step of a sequential scenario (plain data, JSON-serialisable).
 type Op struct {
-	// Kind: add | del | delcond | walkdel | handle | hupdate
+	// Kind: add | del | delcond | walkdel | handle | hupdate | qstop | wstop | wsstop
+	// (qstop/wstop/wsstop: Query(Path) / Walk / WalkSorted with a visitor that
+	// returns an error from its Val-th invocation, Val>=1)
 	Kind string   `json:"kind"`
 	Path []string `json:"path"`
 	Val  int      `json:"val,omitempty"`
@@ -44,10 +46,22 @@ type Scenario struct {
 
 type seqStats struct {
 	failedAdd, globDelRemoved, readdAfterPrune, deleteOnEmpty, handleStale, condDelete, deleteThroughLeaf bool
+	visitStopped, writeAfterStop                                                                          bool
 }
 
 func (s seqStats) nontrivial() bool {
 	return s.failedAdd || s.readdAfterPrune
+}
+
+func (s seqStats) labelsExtra() []string {
+	var l []string
+	if s.visitStopped {
+		l = append(l, "visit-stopped-by-visitor-error")
+	}
+	if s.writeAfterStop {
+		l = append(l, "structural-write-after-a-stopped-visit")
+	}
+	return l
 }
 
 func (s seqStats) labels() []string {
@@ -97,6 +111,7 @@ func runSeq(sc *Scenario, paths, patterns [][]string, observeEvery bool) (st seq
 	m := NewModel()
 	handles := map[int]handle{}
 	pruned := map[string]bool{} // parents emptied by a delete
+	stopped := false            // some visit was stopped by its visitor
 	for i, op := range sc.Ops {
 		op.Path = m.resolve(op)
 		switch op.Kind {
@@ -194,8 +209,54 @@ func runSeq(sc *Scenario, paths, patterns [][]string, observeEvery bool) (st seq
 			if h.l.Value() != op.Val {
 				return st, fmt.Errorf("op %d handle.Update(%d) then Value()=%v", i, op.Val, h.l.Value())
 			}
+		case "qstop", "wstop", "wsstop":
+			// a visitor that stops the visit: the call returns the visitor's error, has made
+			// exactly min(Val, matches) invocations, and leaves the tree fully usable
+			stopAt := op.Val
+			if stopAt < 1 {
+				stopAt = 1
+			}
+			calls := 0
+			errStop := fmt.Errorf("stop")
+			visitor := func(path []string, _ *ctree.Leaf, _ interface{}) error {
+				calls++
+				if calls >= stopAt {
+					return errStop
+				}
+				return nil
+			}
+			var gerr error
+			matches := 0
+			switch op.Kind {
+			case "qstop":
+				gerr = t.Query(op.Path, visitor)
+				matches = len(m.Query(op.Path))
+			case "wstop":
+				gerr = t.Walk(visitor)
+				matches = len(m.leaves)
+			case "wsstop":
+				gerr = t.WalkSorted(visitor)
+				matches = len(m.leaves)
+			}
+			wantCalls := stopAt
+			if matches < stopAt {
+				wantCalls = matches
+			}
+			if calls != wantCalls {
+				return st, fmt.Errorf("op %d %s(%q) with a visitor failing at invocation %d made %d invocations, %d leaves match", i, op.Kind, op.Path, stopAt, calls, matches)
+			}
+			if (matches >= stopAt) != (gerr == errStop) || (matches < stopAt && gerr != nil) {
+				return st, fmt.Errorf("op %d %s(%q) with a visitor failing at invocation %d (%d leaves match) returned %v", i, op.Kind, op.Path, stopAt, matches, gerr)
+			}
+			if gerr != nil {
+				st.visitStopped = true
+				stopped = true
+			}
 		default:
 			return st, fmt.Errorf("unknown op %q", op.Kind)
+		}
+		if stopped && (op.Kind == "add" || op.Kind == "del" || op.Kind == "delcond" || op.Kind == "walkdel") {
+			st.writeAfterStop = true
 		}
 		if observeEvery || i == len(sc.Ops)-1 {
 			if oerr := m.Observe(t, paths, patterns); oerr != nil {
